@@ -106,6 +106,7 @@ GOOD = {
     "DInt 64": ["0", "-1", "9223372036854775807", "-9223372036854775808"],
     "DSplitWs": ["a", "a b", "main contrib non-free", "", "  a \t b\n c ", "amd64 arm64", "a b", " x"],
     "DSplitNl": ["a", "a\nb", "", "*", "debian/*\nsrc/x", "a\n", "\n", "a\n\nb", "2019 John Doe\n2020 Jane", "a\r\nb"],
+    "DSplitNlE": ["a", "a\nb", "", "*", "a\n", "\n", "a\n\nb", "2019 John Doe\n2020 Jane", "a\r\nb"],
     "DLines": ["a", "a\nb", "", "a\n", "a\r\nb", "a\n\nb", "\n", "a\r", "x y\nz"],
 }
 BAD = {
@@ -125,11 +126,49 @@ def ext_name(structs, codec):
         if i == n: return name
     return None
 
+# Codecs the runner computes from their Coq models (model/DeriveExt.v): besides the pool entries (whose
+# expectations the oracle uses) they get free-form texts with no table entry — correspondence only.
+MODELLED = {"Version", "Relations", "Priority", "MultiArch", "License", "Signature", "YesNoForce", "Forwarded",
+            "AppliedUpstream", "ParsedVcs", "EnvMap", "TypesSet", "Origin"}
+def free_text(rng, name):
+    from . import gen
+    if name == "Relations":
+        t, _ = gen.gen_rel_field(rng, substvars=False, ws=rng.random() < 0.5)
+        return t if rng.random() < 0.8 else gen.mutate(rng, t, gen.REL_ALPHABET)
+    if name == "Version":
+        return rng.choice(["", "1", "1.0", "1.0-1", "2:1.0-1", "1-2-3", "1:2:3", "a", "1.0~rc1", "0:0", "4294967296:1", "1.0-", "-", ":", "1 ", "1.0_x",
+                           "01:1", "1:"]) if rng.random() < 0.6 else "".join(rng.choice("01a.+-:~ ") for _ in range(rng.choice([1, 2, 4, 7])))
+    if name == "ParsedVcs":
+        parts = [rng.choice(["https://x/y.git", "u", "", " u", "u [a]", "u -b v"])]
+        for _ in range(rng.choice([0, 1, 1, 2, 3])):
+            parts.append(rng.choice([" -b main", " -b ", " [sub]", " [a b]", " []", " [a]]", " -b x y", "-b z", " [p/q]", "  ", " -b [b]"]))
+        return "".join(parts)
+    if name == "EnvMap":
+        n = rng.choice([0, 1, 2, 3, 5])
+        ls = [rng.choice(["A", "B", "PATH", "LANG", "Z", "a", ""]) + rng.choice(["=", "=", "=", ""]) + rng.choice(["1", "", "x=y", "/usr/bin:/bin", "é", "a b"]) for _ in range(n)]
+        return rng.choice(["\n", "\r\n"] if rng.random() < 0.1 else ["\n"]).join(ls) + rng.choice(["", "", "\n", "\n\n"])
+    if name == "TypesSet":
+        return rng.choice([" ", "\n", "\t", "  "]).join(rng.choice(["deb", "deb-src", "deb", "Deb", "rpm", ""]) for _ in range(rng.choice([0, 1, 2, 3, 4])))
+    if name == "License":
+        return rng.choice(["", "GPL-2+", "\n", "\ntext", "MIT\n", "MIT\nline 1\n .\n line 3", "a\n\nb", "\n\n", "Expat and GPL-2"])
+    if name == "Signature":
+        return rng.choice(["", "/a/b.gpg", "\n", "\nkey", "a\nb", "\n\nkey", "key\n", " x"])
+    if name == "Origin":
+        return rng.choice(["", "upstream", "upstream, ", "upstream, commit:1", "vendor,x", "other, other, y", "commit:", "commit:ab, cd", "Upstream, x",
+                           "backport, ", ", x", "upstream,  x", "x, upstream"])
+    if name == "Forwarded":
+        return rng.choice(["no", "not-needed", "yes", "No", "", "no ", "https://x"])
+    if name == "AppliedUpstream":
+        return rng.choice(["commit:", "commit:1", "1.0", "", "Commit:1", " commit:1", "commit: 1"])
+    return rng.choice(["required", "same", "yes", "no", "force", "extra", "allowed", "Foreign", "optional", "", "important "])
+
 def field_value(rng, structs, f, want_ok=True):
     """-> (text, table entries [(id, raw, canon|None)])"""
     de = f["de"]
     if de.startswith("DExt"):
         name = ext_name(structs, de); i = int(de.split()[1])
+        if name in MODELLED and rng.random() < 0.35:
+            return free_text(rng, name), []
         pool = EXT_POOL[name]
         cands = [e for e in pool if (e[1] is not None) == want_ok] or pool
         raw, canon = rng.choice(cands)
@@ -232,7 +271,11 @@ def struct_case(rng, structs, st, cid, prior_mode="comments", break_it=None):
     if rng.random() < 0.3:
         items.insert(rng.randrange(len(items) + 1), (rng.choice(FOREIGN), "foreign"))
     prior = prior_text(rng, st, structs, prior_mode)
-    return (cid, [st["id"], enc_items(items), hexs(prior) if prior is not None else "-", enc_table(ents), unordered_keys(structs, st)])
+    clr = "-"
+    if break_it is None and st.get("clearable") and rng.random() < 0.15:
+        ks = [k for k in st["clearable"] if rng.random() < 0.6] or [rng.choice(st["clearable"])]
+        clr = ",".join(hexs(k) for k in ks)
+    return (cid, [st["id"], enc_items(items), hexs(prior) if prior is not None else "-", enc_table(ents), unordered_keys(structs, st), clr])
 
 def derive_cases(tier, rng, prefix="d"):
     structs = load_structs()
@@ -251,6 +294,17 @@ def derive_cases(tier, rng, prefix="d"):
                 items.append((f["key"], v)); ents += e
             prior = prior_text(rng, st, structs, "comments")
             cases.append((f"{prefix}x{len(cases)}", [st["id"], enc_items(items), hexs(prior), enc_table(ents), unordered_keys(structs, st)]))
+        # every list field the harness can reach, emptied (alone, and all together), with and without a prior paragraph
+        cl = st.get("clearable") or []
+        for ks in [[k] for k in cl] + ([cl] if len(cl) > 1 else []):
+            for mode in ("none", "comments"):
+                items, ents = [], []
+                for f in st["fields"]:
+                    v, e = field_value(rng, structs, f)
+                    items.append((f["key"], v)); ents += e
+                prior = prior_text(rng, st, structs, mode)
+                cases.append((f"{prefix}c{len(cases)}", [st["id"], enc_items(items), hexs(prior) if prior is not None else "-", enc_table(ents),
+                                                        unordered_keys(structs, st), ",".join(hexs(k) for k in ks)]))
         for j in range(per):
             cases.append(struct_case(rng, structs, st, f"{prefix}{len(cases)}", prior_mode=modes[j % len(modes)]))
     return cases
